@@ -36,6 +36,8 @@ int main(void) {
 	{ unsigned short lw16[3] = u"abc"; unsigned lw32[2] = U"xy"; __typeof__(L'a') lwl[4] = L"wxyz"; unsigned char l8[2] = u8"pq"; struct { unsigned short w[2]; unsigned char guard; } lst = { u"mn", 7 };
 	  unsigned lw32z[3] = U"xy"; unsigned short lw16e[1] = u"";
 	  dump(lw16, sizeof lw16); dump(lw32, sizeof lw32); dump(lwl, sizeof lwl); dump(l8, sizeof l8); dump(lst.w, sizeof lst.w); P(lst.guard); dump(lw32z, sizeof lw32z); dump(lw16e, sizeof lw16e); }
+	{ static struct { unsigned w[10]; int k; } sw1 = { .w = U"xyz", .w[8] = 5, .k = 1 }; static struct { unsigned short h[9]; } sw2 = { .h = u"ab", .h[7] = 9, .h[3] = 1 }; static struct { char c[12]; } sw3 = { .c = "hi", .c[11] = 'z' };
+	  dump(&sw1, sizeof sw1); dump(&sw2, sizeof sw2); dump(&sw3, sizeof sw3); }
 	{ struct AN { int a; struct { int b, c; }; int d; int e; }; static struct AN n1 = { .b = 1, 2, 3 }; static struct AN n2 = { 5, .c = 1, 3 }; struct AN n3 = { .b = 1, 2, 3 }; struct AN n4 = { 5, .c = 1, 3 };
 	  struct { struct { struct { int x, y; }; int z; }; int w; } n5 = { .y = 1, 2, 3 }; struct { int a; union { int b; char c; }; int d; } n6 = { .b = 7, 8 };
 	  dump(&n1, sizeof n1); dump(&n2, sizeof n2); P(n3.a); P(n3.b); P(n3.c); P(n3.d); P(n3.e); P(n4.a); P(n4.b); P(n4.c); P(n4.d); P(n4.e); P(n5.x); P(n5.y); P(n5.z); P(n5.w); P(n6.a); P(n6.b); P(n6.d); }
